@@ -235,7 +235,11 @@ fn run_fmt_n(ctx: &Ctx, f: &dyn Fmt, other: &dyn Fmt, who: &str, cases: usize) -
 }
 
 fn ipc(ctx: &Ctx, file: bool) -> R {
-    let p = ipc_profile(ctx);
+    let mut p = ipc_profile(ctx);
+    if ctx.chance(1, 2, "c08.text") {
+        // multi-byte and non-BMP characters: offsets can then land inside a code point
+        p.str_style = gen::types_api::StrStyle::Text;
+    }
     let mk = |ctx: &Ctx| {
         let mut wl = gen_workload(ctx, &p, 3, 10, true);
         if file && wl.schema.fields().iter().any(|f| checks::c04::has_dict(f.data_type())) {
